@@ -38,21 +38,41 @@ const MIN_FUSE_DIRENT_SIZE: usize = 32;
 impl<S: BitmapSlice + Send + Sync> PassthroughFs<S> {
     fn open_inode(&self, inode: Inode, flags: i32) -> io::Result<File> {
         let data = self.inode_map.get(inode)?;
+        self.open_inode_data(&data, flags, None)
+    }
+
+    /// Open the file behind `data`. If the caller already holds an `O_PATH` descriptor of it
+    /// (`path_file`), that one is reopened through `/proc/self/fd` rather than going through the
+    /// inode's file handle again, which is only possible with `CAP_DAC_READ_SEARCH`.
+    fn open_inode_data(
+        &self,
+        data: &InodeData,
+        flags: i32,
+        path_file: Option<&InodeFile>,
+    ) -> io::Result<File> {
         if !is_safe_inode(data.mode) {
             Err(ebadf())
         } else {
             // A truncating open changes the size of any non-empty file.
-            if self.seal_size.load(Ordering::Relaxed)
-                && flags & libc::O_TRUNC != 0
-                && data.handle.stat()?.st_size != 0
-            {
-                return Err(eperm());
+            if self.seal_size.load(Ordering::Relaxed) && flags & libc::O_TRUNC != 0 {
+                let st = match path_file {
+                    Some(f) => stat_fd(f, None)?,
+                    None => data.handle.stat()?,
+                };
+                if st.st_size != 0 {
+                    return Err(eperm());
+                }
             }
             let mut new_flags = self.get_writeback_open_flags(flags);
             if !self.cfg.allow_direct_io && flags & libc::O_DIRECT != 0 {
                 new_flags &= !libc::O_DIRECT;
             }
-            data.open_file(new_flags | libc::O_CLOEXEC, &self.proc_self_fd)
+            match path_file {
+                Some(f) => {
+                    reopen_fd_through_proc(f, new_flags | libc::O_CLOEXEC, &self.proc_self_fd)
+                }
+                None => data.open_file(new_flags | libc::O_CLOEXEC, &self.proc_self_fd),
+            }
         }
     }
 
@@ -795,8 +815,16 @@ impl<S: BitmapSlice + Send + Sync> FileSystem for PassthroughFs<S> {
                     None
                 };
 
-                let res = set_creds(ctx.uid, ctx.gid)
-                    .and_then(|_creds| self.open_inode(entry.inode, args.flags as i32))
+                // With file handles the inode can only be reached with CAP_DAC_READ_SEARCH: get
+                // hold of it first, then reopen it with the caller's credentials.
+                let res = self
+                    .inode_map
+                    .get(entry.inode)
+                    .and_then(|data| {
+                        let path_file = data.get_file()?;
+                        let _creds = set_creds(ctx.uid, ctx.gid)?;
+                        self.open_inode_data(&data, args.flags as i32, Some(&path_file))
+                    })
                     .and_then(|file| {
                         if args.flags & (libc::O_TRUNC as u32) != 0 {
                             // The attributes were fetched before the open truncated the file.
